@@ -141,7 +141,7 @@ CLAIMED.update({
              'character of look-ahead (sef, decided syntactically and proved sound against the reference semantics) has a number of ends '
              '(with multiplicity: the size of the backtracking search) bounded by the polynomial (n+2)^deg for EVERY subject; the certificate '
              'holds for ALL 50 patterns regenerated from the sources (vm_compute), so a source change that makes an iteration ambiguous breaks '
-             'the proof. (RegexSem) the matcher whose search is bounded finds exactly the matches of a declarative semantics of the whole expression language (ends_iff_M). (RegexCost) the older single-ended certificate for 28 patterns. For all 50 and for the attribute patterns '
+             'the proof. (AttrCost) the attribute patterns built at run time are certified for every value, degree 8 whatever the value. (RegexSem) the matcher whose search is bounded finds exactly the matches of a declarative semantics of the whole expression language (ends_iff_M). (RegexCost) the older single-ended certificate for 28 patterns. For all 50 and for the attribute patterns '
              'built at run time: translation validated against the live re objects, an ambiguity search in the model (pump strings, '
              'capped search-tree size, constant growth ratio = exponential) confirmed by timing the live engine, and compile() timed on '
              'truncated-construct families.',
